@@ -435,3 +435,64 @@ Proof.
   destruct (bkind_eqb (bk (the_blk s b)) KCode); [|exact Hp].
   apply EP_update_patch_return_edges; assumption.
 Qed.
+
+(* ---- what _update_patch_return_edges_to_match leaves, exactly ---- *)
+Lemma fold_add_In_iff {A} (mk : A -> edge) l : forall pc x,
+  In x (fold_left (fun pc t => cfg_add (mk t) pc) l pc) <-> In x pc \/ exists t, In t l /\ x = mk t.
+Proof.
+  induction l as [|t l IH]; intros pc x; cbn [fold_left].
+  - split; [auto|intros [H|(t & [] & _)]; exact H].
+  - rewrite IH. unfold cfg_add. rewrite es_add_In. split.
+    + intros [[->|H]|(t' & Ht & E)]; [right; exists t; split; [left; reflexivity|reflexivity]|left; exact H|right; exists t'; split; [right; exact Ht|exact E]].
+    + intros [H|(t' & [<-|Ht] & E)]; [left; right; exact H|left; left; exact E|right; exists t'; split; assumption].
+Qed.
+
+Definition patch_ret_edges (pcfg : list edge) (pprox : list nat) : list edge :=
+  filter (fun e => is_ret e && is_proxy (tgt e) && nmem (nid (tgt e)) pprox) pcfg.
+Definition function_return_targets (s : st) (f : nat) : list nat :=
+  dedup_nat (flat_map (fun fb => map (fun e => nid (tgt e)) (filter (fun e => negb (is_proxy (tgt e))) (block_return_edges s fb))) (func_blocks s f)).
+
+Theorem update_patch_return_edges_spec s b pcfg pprox f :
+  aget b (fbb s) = Some f -> patch_ret_edges pcfg pprox <> [] -> function_return_targets s f <> [] ->
+  forall x, In x (fst (update_patch_return_edges s b pcfg pprox)) <->
+    (In x pcfg /\ ~ In x (patch_ret_edges pcfg pprox)) \/
+    (exists e t, In e (patch_ret_edges pcfg pprox) /\ In t (function_return_targets s f) /\ x = mk_edge' (src e) (NB t) ET_RETURN).
+Proof.
+  intros Hf Hpres Htg x. unfold update_patch_return_edges. fold (patch_ret_edges pcfg pprox). rewrite Hf. fold (function_return_targets s f).
+  destruct (patch_ret_edges pcfg pprox) as [|e0 pres'] eqn:Ep; [contradiction|]. rewrite <- Ep in *. clear Hpres.
+  destruct (function_return_targets s f) as [|t0 ts] eqn:Et; [contradiction|]. rewrite <- Et in *. clear Htg.
+  set (targets := function_return_targets s f) in *. clearbody targets. clear Et t0 ts.
+  assert (Hprox : forall e, In e (patch_ret_edges pcfg pprox) -> is_proxy (tgt e) = true).
+  { intros e He. unfold patch_ret_edges in He. apply filter_In in He. destruct He as [_ B]. apply andb_prop in B. destruct B as [B _]. apply andb_prop in B. exact (proj2 B). }
+  set (pres := patch_ret_edges pcfg pprox) in *. clearbody pres. clear Ep e0 pres'.
+  assert (G : forall l pc pp, (forall e, In e l -> is_proxy (tgt e) = true) ->
+              In x (fst (fold_left (fun acc e => let '(pc, pp) := acc in
+                                       (fold_left (fun pc t => cfg_add (mk_edge' (src e) (NB t) ET_RETURN) pc) targets (cfg_discard e pc), ndel (nid (tgt e)) pp))
+                                   l (pc, pp))) <->
+              (In x pc /\ ~ In x l) \/ (exists e t, In e l /\ In t targets /\ x = mk_edge' (src e) (NB t) ET_RETURN)).
+  { induction l as [|e l IH]; intros pc pp Hl; cbn [fold_left fst].
+    - split; [intros H; left; split; [exact H|intros []]|intros [[H _]|(e & t & [] & _)]; exact H].
+    - rewrite IH by (intros e' He'; apply Hl; right; exact He'). rewrite fold_add_In_iff. unfold cfg_discard. rewrite es_discard_In. split.
+      + intros [[[[Hx Hne]|(t & Ht & E)] Hnl]|(e' & t & He' & Ht & E)].
+        * left. split; [exact Hx|]. intros [H|H]; [apply Hne; symmetry; exact H|exact (Hnl H)].
+        * right. exists e, t. split; [left; reflexivity|split; assumption].
+        * right. exists e', t. split; [right; exact He'|split; assumption].
+      + intros [[Hx Hn]|(e' & t & [<-|He'] & Ht & E)].
+        * left. split; [left; split; [exact Hx|intros ->; apply Hn; left; reflexivity]|intros H; apply Hn; right; exact H].
+        * left. split; [right; exists t; split; assumption|]. intros Hin. pose proof (Hl x (or_intror Hin)) as Hp. rewrite E in Hp. cbn in Hp. discriminate.
+        * right. exists e', t. split; [exact He'|split; assumption]. }
+  apply G. exact Hprox.
+Qed.
+
+(* the union over ALL blocks of the function: every block-target of a return edge of any of them *)
+Lemma function_return_targets_In s f t :
+  In t (function_return_targets s f) <->
+  exists fb e, In fb (func_blocks s f) /\ In e (cfg s) /\ nid (src e) = fb /\ is_ret e = true /\ tgt e = NB t.
+Proof.
+  unfold function_return_targets. rewrite dedup_nat_In, in_flat_map. split.
+  - intros (fb & Hfb & Hin). apply in_map_iff in Hin. destruct Hin as (e & <- & He). apply filter_In in He. destruct He as [He Hnp].
+    apply block_return_edges_In in He. destruct He as (Hc & Hs & Hr). exists fb, e. repeat split; auto.
+    destruct (tgt e) as [y|y]; [reflexivity|discriminate].
+  - intros (fb & e & Hfb & Hc & Hs & Hr & Ht). exists fb. split; [exact Hfb|]. apply in_map_iff. exists e. split; [rewrite Ht; reflexivity|].
+    apply filter_In. split; [apply block_return_edges_In; auto|rewrite Ht; reflexivity].
+Qed.
